@@ -496,7 +496,9 @@ def _drive(obj, scn, on_step):
     if r:
         return r
     for j, (a, b) in enumerate(steps_of(scn)[1:]):
-        obj.append(cm.mk_candles(stream[a:b]))
+        # optional encoding of the appended chunks (dicts / lists instead of Candle objects); rows without a stamp stay Candle objects
+        enc = scn.get("enc") if all(t[0] is not None for t in stream[a:b]) else None
+        obj.append(encode_chunk(stream[a:b], enc, False) if enc else cm.mk_candles(stream[a:b]))
         for m in (muts[j + 1] if j + 1 < len(muts) else []):
             apply_mut(obj, scn, m)
         r = on_step(j + 1, b)
@@ -959,9 +961,25 @@ def check_c13(scn):
 
 
 def gen_c13(rng, size=50):
-    flavour = rng.choice(["substring", "substring", "suffix", "helper", "helper", "random", "random", "random", "alias"])
+    flavour = rng.choice(["substring", "substring", "suffix", "helper", "helper", "random", "random", "random", "alias", "field"])
     members = None
-    if flavour == "alias":
+    if flavour == "field":
+        # an independent indicator that the user named like a CANDLE FIELD ("high", "volume", ...): a legal, distinct top-level name;
+        # a member that reads that field of the candle (by default or through input_value) takes no input from it
+        fld = rng.choice(["high", "low", "close", "open", "volume"])
+        other = gen_spec(rng, kind=rng.choice(["EMA", "SMA", "RMA", "WMA", "ROC"]))
+        other["params"]["fullname_override"] = fld
+        other["params"]["input_value"] = rng.choice([f for f in ["high", "low", "close", "open"] if f != fld])
+        if fld in ("high", "low", "close") and rng.random() < 0.6:
+            reader = gen_spec(rng, kind=rng.choice(["ATR", "TR", "STOCH", "KC", "ADX", "Supertrend", "aroon", "donchian", "HL"]
+                                                   + (["HLA"] if fld != "close" else [])))
+        elif fld == "volume" and rng.random() < 0.6:
+            reader = gen_spec(rng, kind=rng.choice(["OBV", "VWAP", "VWMA"]))
+        else:
+            reader = gen_spec(rng, kind=rng.choice(["SMA", "EMA", "STDEV", "RSI", "ROC"]))
+            reader["params"]["input_value"] = fld
+        members = [reader, other]                       # observe the reader of the field, operate on the field-named one
+    elif flavour == "alias":
         # an independent indicator that the user named like one of a composite's INTERNAL registry aliases
         # (managed_indicators keys such as "signal", "dx", "ST_data"): a legal, distinct top-level name
         comp, aliases = rng.choice([("MACD", ["signal"]), ("ADX", ["dx", "ADX_data"]), ("STOCH", ["STOCH_d", "STOCH_data"]), ("HMA", ["raw_HMA"]),
@@ -1052,15 +1070,22 @@ def gen_c13(rng, size=50):
         st = rng.choice([steps - 1, steps - 1, rng.randrange(steps)])
         ops.append((st, rng.choice(OPS[:3] + OPS[:3] + OPS[3:]), rng.randrange(1, len(members))))
     ops.sort(key=lambda o: o[0])
-    # after remove_indicator the target is gone: later ops on it are dropped
+    # after remove_indicator the target is gone.  Later operations that still NAME it are legal calls (the library ignores a name it
+    # does not hold) and must leave the others alone just the same: kept half of the time, and sometimes added on purpose
+    keep_stale = rng.random() < 0.5
     seen_removed, clean = set(), []
     for st, op, tgt in ops:
-        if tgt in seen_removed:
+        if tgt in seen_removed and not keep_stale:
             continue
         clean.append([st, op, tgt])
         if op == "remove_indicator":
             seen_removed.add(tgt)
+            if keep_stale and rng.random() < 0.6:
+                clean.append([rng.choice([st, steps - 1]), rng.choice(["purge", "recalculate", "remove_indicator"]), tgt])
+    clean.sort(key=lambda o: o[0])
     scn = {"check": "c13", "hx": cfg, "members": members, "keep_members": True, "stream": stream, "init": init, "chunks": chunks, "ops": clean}
+    if rng.random() < 0.3:
+        scn["enc"] = rng.choice(["dict", "list_ts_first", "list_ts_last", "dict_iso"])   # the same raw rows go to every manager
     meta = {"flavour": flavour, "price": smeta["price"], "schedule": shape, "members": len(members), "shared_tf": bool(shared_tf),
             "hx_tf": bool(cfg["tf"]), "ha": cfg["ha"], "observed": spec_label(members[0])}
     for _, op, _t in clean:
